@@ -26,6 +26,12 @@ RULE = (
     "task steps, inside flushes and after completion of random Tasklang programs, plus fixed objects holding awkward payloads (tuples of every length, format-like strings, bytes, containers, nan): never raise and never change "
     "is_computed() of anything. distinct = case hash per part; non-trivial = (a) d >= 2, (b) >= 1 run, (c)/(d) all."
 )
+RULE += (
+    " Fixed objects also include values that reach the future holding them again, twice or more, through "
+    "namedtuples, record classes, dict subclasses and nested containers (repr must stay bounded). 12% of the "
+    "generated traceback frame lines sit below a path 18-110 directories deep and 15% of the code lines are "
+    "239-5000 characters long; format_error must keep a 900-character message."
+)
 ASSUMPTIONS = ["pygments (used for highlighting) is trusted"]
 UNIT_TIMEOUT = {"quick": 240, "thorough": 2400}
 
